@@ -36,6 +36,10 @@ def set_log_level(level):
 
 set_log_level(logging.ERROR)
 
+import warnings  # noqa: E402
+warnings.simplefilter('ignore')      # numpy RuntimeWarnings of sensor scalings on arbitrary data
+np.seterr(all='ignore')
+
 
 @contextlib.contextmanager
 def installed(fs):
